@@ -310,6 +310,24 @@ pub fn cases(prop: &str, tier: &str, ctx: &mut Ctx, rng: &mut Rng) {
                     ctx.push_reg(&format!("corpus:{n}"), reg, Some(rj), &spec);
                 }
             }
+            if prop == "C08" || prop == "C16" {
+                // every item path of the corpus as a recursive root, alone and with a second root
+                for (n, rj, reg) in &corp {
+                    let paths = item_paths(reg);
+                    for (k, p) in paths.iter().enumerate() {
+                        if reg.types.len() > 60 && k % 4 != 0 {
+                            continue;
+                        }
+                        let mut s = base_spec(reg);
+                        s.ops.push(OpSpec::DerivesFor(p.join("::"), vec!["RecDerive".into()], true));
+                        s.ops.push(OpSpec::AttrsFor(p.join("::"), vec!["#[rec_attr]".into()], true));
+                        if k + 1 < paths.len() {
+                            s.ops.push(OpSpec::DerivesFor(paths[k + 1].join("::"), vec!["Second".into()], true));
+                        }
+                        ctx.push_reg(&format!("corpus-roots:{n}"), reg, Some(rj), &s);
+                    }
+                }
+            }
             random_cases(ctx, rng, 300 * scale, &GenCfg::default(), &full);
             if thorough {
                 let reg = crate::util::polkadot_registry();
